@@ -180,6 +180,9 @@ class Cache:
             res.limit = 0
             res.group_by = set()
             res.is_summarized = False
+            if node.how == "inner":
+                # the WHERE clause of the right table becomes part of the joined query
+                res.is_filtered = self.is_filtered or right_cache.is_filtered
 
         elif isinstance(node, verbs.Union):
             assert right_cache is not None
